@@ -8,7 +8,7 @@ LEVEL = 'proof'
 PROP = 'C14'
 FEATURES = ('serde', 'nanoserde', 'debug_diffs')
 ASSUMPTIONS = dgeneric.ASSUMPTIONS + [
-    'byte-level theorems cover the hand-written ordered-script codecs (both formats, owned and borrowed form, tables regenerated from the source); the FRAMING of the per-struct enums generated by the macro (discriminant = rank among the unskipped fields, u16 / u32; list length) is modelled and proved generically in the payload codecs and tied byte-for-byte on flat shapes (u32 / Option<u32> fields); the payload encodings that serde_derive / nanoserde-derive generate for other field types and for user types are exercised end-to-end (encode with the real encoder, decode with the real decoder, compare effects), not modelled byte by byte',
+    'byte-level theorems cover the hand-written ordered-script codecs (both formats, owned and borrowed form, tables regenerated from the source); the wire form of derived struct diffs (discriminant = rank of the (field, alternative) among the generated variants, u16 / u32; list length; per-strategy payloads incl. the hand-written collection codecs) is modelled, proved generically in the payload codecs and for all eight field templates over flat element types, and tied byte-for-byte in both directions on the tie shapes; the payload encodings that serde_derive / nanoserde-derive generate for plain fields of other types (nested struct values, enums, floats) and for generic parameters are exercised end-to-end (encode with the real encoder, decode with the real decoder, compare effects), not modelled byte by byte',
 ]
 
 
